@@ -17,7 +17,7 @@ PROPERTY_ID = "C03"
 RULE = ("case = network template (T1 filter->SIMP->stiffness->LinSolve->compliance with solver variants; T2 assembly->"
         "sparse EigenSolve; T3 OverhangFilter->weighted sum; T4 assembly->SystemOfEquations; T5 assembly->"
         "StaticCondensation; T6 dense matrix function->LinSolve/Inverse/EigenSolve; T7 filter->aggregation with active "
-        "set/undamped scaling) + options + history of 5-40 ops respecting response-before-sensitivity. Oracle: after the "
+        "set/undamped scaling; T8 void/solid (exactly zero) element scalings->Poisson assembly->LinSolve) + options + history of 5-40 ops respecting response-before-sensitivity. Oracle: after the "
         "history, reset->response->seed->sensitivity on the used objects equals a freshly built identical network "
         "evaluated once (1e-9 direct; 1e-5 where LDAS reconstruction/CG/ARPACK is involved) -- the same comparison is made for "
         "up to six sensitivity passes inside the history that directly follow a full reset (with or without a new "
@@ -32,7 +32,7 @@ ASSUMPTIONS = [
     "pencil's spectrum; the singular-factorisation raise of _sparse_eigvec_sens is the known finding recorded for C01",
 ]
 
-TEMPLATES = ["T1", "T1", "T2", "T2", "T3", "T4", "T5", "T6", "T7"]
+TEMPLATES = ["T1", "T1", "T2", "T2", "T3", "T4", "T5", "T6", "T7", "T8"]
 
 
 def budget(tier):
@@ -286,6 +286,33 @@ def build(case):
         else:
             mods.append(pym.SoftMinMax(xf, y, alpha=4.0, **kw))
         return Net(pym.Network(mods), [x], [y, xf], designs, 1e-9, labels + [f"agg:{o['agg']}:{o['agg_opt']}"])
+    if T == "T8":
+        # void/solid designs: element scalings that are *exactly* zero make stored matrix entries exactly zero, so dofs
+        # get (de)coupled from one design to the next while the stored sparsity pattern stays the same
+        dom = pym.DomainDefinition(max(3, o["nx"]), max(3, o["ny"]))
+        nodes = np.asarray(dom.nodes).reshape(dom.nelx + 1, dom.nely + 1)
+        bc = np.unique(np.concatenate([nodes[0, :], nodes[-1, :], nodes[:, 0], nodes[:, -1]]))
+        if o["filter"] == "density":     # second boundary-condition layout: two opposite sides only
+            bc = np.unique(np.concatenate([nodes[0, :], nodes[-1, :]]))
+        n = dom.nnodes
+        designs = []
+        for _ in range(4):
+            d = rng.choice(np.array([0.0, 0.0, 0.5, 1.0, 1.0]), size=dom.nel)
+            tmp = pym.AssemblePoisson(S("t", d), S("tK"), dom, bc=bc, bcdiagval=1.0)
+            tmp.response()
+            Kd = tmp.sig_out[0].state.toarray()
+            if not np.all(np.isfinite(Kd)) or np.linalg.cond(Kd) > 1e6:
+                d = np.ones(dom.nel)      # floating / unsupported material: not a solvable design
+            designs.append(d)
+        x, K, u, c = S("x", designs[0].copy()), S("K"), S("u"), S("c")
+        f0 = rng.standard_normal(n)
+        f0[bc] = 0
+        f = S("f", f0)
+        mods = [pym.AssemblePoisson(x, K, dom, bc=bc, bcdiagval=1.0), pym.LinSolve([K, f], u),
+                pym.EinSum([u, f], c, expression="i,i->")]
+        if o["solver"] == "nolda":
+            mods[1].use_lda_solver = False
+        return Net(pym.Network(mods), [x], [c, u], designs, 1e-5, labels + ["void_solid_designs"])
     raise ValueError(T)
 
 
